@@ -145,10 +145,17 @@ def run_history(case: dict[str, Any]) -> dict[str, Any]:
                     sim.net.at(sim.clock + slow, lambda: fut.done() or fut.set_result(None))
                     await fut
                 cbs.append((sim.next_seq(), sim.clock, name, "ret", a[0] if a else None))
+                if var.get("cb_raises") == name:
+                    # an application bug inside the hook: the session it was told about is established all the same
+                    raise RuntimeError(f"application bug inside {name}")
             return cb
 
+        name_via = var.get("name_via", "ctor")
         rl = ReconnectLogic(client=cli, on_connect=mk("on_connect"), on_disconnect=mk("on_disconnect"), on_connect_error=mk("on_connect_error"),
-                            name=None if var["addr"] == "local" else "dev")
+                            name=None if var["addr"] == "local" or name_via == "attr" else "dev")
+        if name_via == "attr" and var["addr"] != "local":
+            # the application learns the device name after constructing the manager (an entry configured by IP address) and assigns it
+            rl.name = "dev"
         harness: list[tuple[Any, ...]] = []   # (seq, t, what, extra)
         calls: list[Any] = []
         skipped = 0
@@ -561,6 +568,10 @@ def judge(case: dict[str, Any], o: dict[str, Any]) -> tuple[list[tuple[str, str]
 
 # ---------------------------------------------------------------- generators
 VARIANTS = [{"addr": a, "noise": n, "zc": z, "slow_cb": sc} for a in ("ip", "local", "literal") for n in (False, True) for z in ("library", "supplied") for sc in (0.0, 0.0, 0.3)]
+VARIANTS += [{"addr": a, "noise": n, "zc": z, "slow_cb": 0.0, "name_via": "attr"} for a in ("ip", "literal") for n in (False, True) for z in ("library", "supplied")]
+VARIANTS += [{"addr": a, "noise": False, "zc": z, "slow_cb": 0.0, "cb_raises": cb} for a in ("ip", "local") for z in ("library", "supplied")
+             for cb in ("on_connect",)]   # (a raising on_disconnect / on_connect_error hook ends the manager's retry loop on the pinned tree: the statement
+#                                          quantifies over outcomes, endings, mDNS events and start/stop calls, not over hooks that raise - observed, DESIGN §9, not judged)
 
 ALPHABET: list[Any] = [
     ["start"], ["stop"], ["world", "refuse"], ["world", "ok"], ["run", 2.0], ["run", "timer"], ["mdns", "match-ptr"], ["mdns", "nomatch-a"],
